@@ -13,7 +13,10 @@ import esp_kconfiglib.core as K  # noqa: E402
 import esp_kconfiglib.report as R  # noqa: E402
 import esp_kconfiglib.deprecated as DEP  # noqa: E402
 
-install_log(K, R, DEP)
+import esp_kconfiglib.kconfig_parser as KP  # noqa: E402
+import esp_kconfiglib.kconfig_grammar as KG  # noqa: E402
+
+install_log(K, R, DEP, KP, KG)
 
 _SCRATCH = None
 _FILES = {}
@@ -88,6 +91,11 @@ def build(tid, parser_version=None, renames=False, env=None):
         old = {}
         env = dict(env or {})
         env.setdefault("IDF_TARGET", "esp32")
+        if tid.startswith("F:kconfiglib/kconfigs/"):
+            # environment the repository's own tests give these fixtures
+            env.setdefault("TEST_FILE_PREFIX", FIXROOT + "/kconfiglib/kconfigs/ok/kconfigs_for_sourcing")
+            env.setdefault("TEST_ENV_SET", "y")
+            env.setdefault("MAX_NUMBER_OF_MOTORS", "4")
         for k, v in env.items():
             old[k] = os.environ.get(k)
             os.environ[k] = v
@@ -333,7 +341,8 @@ def snapshot(k, reverse=False):
     sel = []
     for c in k.unique_choices:
         x = c.selection
-        sel.append((x.name if x is not None else None, c.visibility, c.str_value))
+        sel.append((c.syms[0].name if c.syms else "", x.name if x is not None else None, c.visibility, c.str_value))
+    sel.sort()  # parser 1 and 2 number nested choices differently; the order carries no meaning
     return out, sel
 
 
